@@ -88,7 +88,7 @@ CLAIMED = {
     "C19": {
         "engine": "vec",
         "technique": "Coq proof (RawVec capacity arithmetic with explicit usize operations) + boundary grid against std and the model",
-        "text": "C19_reserve_covers / C19_reserve_refuses / C19_with_capacity / C19_slices_sum_refused / C19_source_amortized / C19_source_cap / C19_source_reserve_shortcut / C19_source_new_cap (RawVec::cap, the inlined reserve shortcut and the capacity asked for, parsed from raw_vec.rs on every run, equal the model); a grid of 576 (entry point, element size, count, starting length) cases on both sides of usize::MAX, usize::MAX/size, isize::MAX/size is run against std (where std does not abort) and the model, plus boundary scenarios (slices of zero-sized elements summing past usize::MAX, String reserve/with_capacity). Arena-side size checks are covered by C09's no-panic theorem and layout_ok in the arena model.",
+        "text": "C19_reserve_covers / C19_reserve_refuses / C19_with_capacity / C19_slices_sum_refused / C19_source_amortized / C19_source_cap / C19_source_reserve_shortcut / C19_source_new_cap (RawVec::cap, the inlined reserve shortcut and the capacity asked for, parsed from raw_vec.rs on every run, equal the model); a grid of 576 (entry point, element size, count, starting length) cases on both sides of usize::MAX, usize::MAX/size, isize::MAX/size is run against std (where std does not abort) and the model, plus boundary scenarios (slices of zero-sized elements summing past usize::MAX, String reserve/with_capacity). Arena-side size checks are covered by C09's no-panic theorem and layout_ok in the arena model. The arena engine counts too: a request of 2^47 bytes or more is never granted and never makes a fallible method panic, for every MIN_ALIGN.",
         "design_ref": "DESIGN.md §6 C19",
     },
     "C17": {
